@@ -29,13 +29,15 @@ BOUNDS = {"footprint": "width in {1,3,8}, depth in {1,16,17,40}, element size 1/
 
 
 def ENCODED():
+    import ethosu.vela.npu_performance  # noqa (import cycle)
+    import ethosu.vela.scheduler as sch
     import ethosu.vela.register_command_stream_util as u
     import ethosu.vela.register_command_stream_generator as g
     import ethosu.vela.tensor as t
     import ethosu.vela.high_level_command_to_npu_op as h2n
     import ethosu.vela.architecture_features as af
 
-    return [h2n.create_weights, g.generate_weights, g.generate_biases, u.get_strides, u.get_address, u.get_address_range, u.get_address_ranges, g.check_mem_limits, t.Tensor.addresses_for_rolling_buffer,
+    return [sch.Scheduler.propose_weight_buffering, h2n.create_weights, g.generate_weights, g.generate_biases, u.get_strides, u.get_address, u.get_address_range, u.get_address_ranges, g.check_mem_limits, t.Tensor.addresses_for_rolling_buffer,
             t.Tensor.address_for_coordinate, t.Tensor.get_strides, t.Tensor.get_augmented_coord, __import__('ethosu.vela.graph_optimiser_util', fromlist=['x'])._avoid_nhcwb16_for_shapes, h2n.get_region, h2n.get_mem_limits_for_regions,
             af.ArchitectureFeatures.mem_type_size, af.ArchitectureFeatures.is_spilling_enabled]
 
@@ -286,7 +288,15 @@ def idle_core(V, **params):
     return c06.pair(V, **params)
 
 
-FUNCS = {"weight_ranges": weight_ranges, "idle_core": idle_core, "fm_in_tensor": fm_in_tensor, "lr_rolling": lr_rolling, "nhcwb16_shapes": nhcwb16_shapes, "footprint": footprint, "mem_limits": mem_limits, "rolling": rolling, "regions": regions}
+def buffering(V, **params):
+    """every weight depth slice fits the SRAM buffer the command generator DMAs it into (harness/c08.py buffering: the real
+    Scheduler.propose_weight_buffering over symbolic slice sizes) - an overrun writes outside the buffer's extent, over a neighbouring tensor"""
+    from harness import c08
+
+    return c08.buffering(V, **params)
+
+
+FUNCS = {"buffering": buffering, "weight_ranges": weight_ranges, "idle_core": idle_core, "fm_in_tensor": fm_in_tensor, "lr_rolling": lr_rolling, "nhcwb16_shapes": nhcwb16_shapes, "footprint": footprint, "mem_limits": mem_limits, "rolling": rolling, "regions": regions}
 
 
 def instances(tier, seed):
@@ -319,8 +329,8 @@ def instances(tier, seed):
     from harness import c08
 
     for inst in c08.instances(tier, seed):
-        if inst["fn"] == "weight_ranges":
-            out.append(dict(key=inst["key"], fn="weight_ranges", params=inst["params"]))
+        if inst["fn"] in ("weight_ranges", "buffering"):
+            out.append(dict(key=inst["key"], fn=inst["fn"], params=inst["params"]))
     for gname in ("weights", "biases"):
         out.append(dict(key="idle_core/%s" % gname, fn="idle_core", params=dict(accel="Ethos_U65_512", kind="conv", group=gname, light=True), weight=100))
     for nprod, ncons in ((1, 1), (1, 2), (2, 1), (1, 0)):
